@@ -33,8 +33,10 @@ def predicate(function: Callable[..., T]) -> Callable[..., SymbolicExpression[T]
     @wraps(function)
     def wrapper(*args, **kwargs) -> Optional[Any]:
         if in_symbolic_mode():
+            # positional arguments bind to the positional parameters in order, whether or not these have defaults.
             function_arg_names = [pname for pname, p in inspect.signature(function).parameters.items()
-                                  if p.default == inspect.Parameter.empty]
+                                  if p.kind in (inspect.Parameter.POSITIONAL_ONLY,
+                                                inspect.Parameter.POSITIONAL_OR_KEYWORD)]
             kwargs.update(dict(zip(function_arg_names, args)))
             return Variable(function.__name__, function, _kwargs_=kwargs,
                             _predicate_type_=PredicateType.DecoratedMethod)
